@@ -801,7 +801,11 @@ where
         let mut futs = vec![];
         for (_, cmd) in slotted_kvs {
             let resp = Resp::Arr(Array::Arr(cmd));
-            let (sub_cmd_ctx, fut) = factory.create_with_ctx(cmd_ctx.get_context(), resp);
+            let (mut sub_cmd_ctx, fut) = factory.create_with_ctx(cmd_ctx.get_context(), resp);
+            // The values of a forwarded MSETNX have already been compressed.
+            if let Some(times) = cmd_ctx.get_redirection_times() {
+                sub_cmd_ctx.set_redirection_times(times);
+            }
             futs.push(fut);
             self.handle_single_key_data_cmd(sub_cmd_ctx);
         }
@@ -1099,6 +1103,11 @@ where
 
     fn handle_single_key_data_cmd(&self, cmd_ctx: CmdCtx) {
         let mut cmd_ctx = cmd_ctx;
+        // The commands forwarded by other proxies have already been compressed by them.
+        // Compressing them again would store the values compressed twice.
+        if cmd_ctx.get_redirection_times().is_some() {
+            return self.manager.send(cmd_ctx);
+        }
         match self.compressor.try_compressing_cmd_ctx(&mut cmd_ctx) {
             Ok(())
             | Err(CompressionError::UnsupportedCmdType)
